@@ -125,6 +125,10 @@ def variant? : Sexp → Option Bool
   | _ => none
 
 /-- coverage signature: nesting depth reached, number of threads and contexts touched, features used -/
+def hasInfix (pat : List Char) : List Char → Bool
+  | [] => pat.isEmpty
+  | c :: cs => pat.isPrefixOf (c :: cs) || hasInfix pat cs
+
 def signature (evs : List (Ev Val)) (line : String) : String :=
   let enters := evs.filter fun | .enter .. => true | _ => false
   let depth := (evs.foldl (fun (acc : Nat × Nat) e =>
@@ -135,7 +139,8 @@ def signature (evs : List (Ev Val)) (line : String) : String :=
   let threads := (evs.map fun | .open t .. => t | .enter t .. => t | .exit t .. => t | .observe t _ => t).eraseDups.length
   if enters.isEmpty then "trivial"
   else
-    let has (s : String) : String := if (line.splitOn s).length > 1 then "1" else "0"
+    let cs := line.toList
+    let has (s : String) : String := if hasInfix s.toList cs then "1" else "0"
     s!"depth={min depth 6},thr={threads},tasks={has "(tasks"},panic={has "(panic)"},infn={has "(infn"},yield={has "(yield)"}"
 
 def runC03 (line : String) : String :=
